@@ -83,7 +83,7 @@ class DFIMonitor(Module):
             sel_any = Signal()
             self.comb += sel_any.eq(ph.cs_n != allones)
             d = dict(
-                sel=[~ph.cs_n[r] for r in range(nranks)], sel_any=sel_any,
+                sel=[ph.cs_n[r] == 0 for r in range(nranks)], sel_any=sel_any,
                 act=Signal(), pre=Signal(), rd=Signal(), wr=Signal(), ref=Signal(), mrs=Signal(), zqc=Signal(),
                 a10=ph.address[10], bank=ph.bank, row=ph.address[:rowbits], ph=ph)
             self.comb += [
@@ -102,7 +102,7 @@ class DFIMonitor(Module):
                 ph.rddata_en != d["rd"], ph.wrdata_en != d["wr"]]
             acc["unexpected_mrs_command"].append(d["mrs"])
             if nranks > 1:
-                nsel = reduce(lambda a, b: a + b, [~ph.cs_n[r] for r in range(nranks)])
+                nsel = reduce(lambda a, b: a + b, [ph.cs_n[r] == 0 for r in range(nranks)])
                 cmd_single = d["act"] | d["rd"] | d["wr"] | (d["pre"] & ~d["a10"])
                 acc["chip_select_not_single_rank"].append(cmd_single & (nsel != 1))
                 acc["refresh_not_to_all_ranks"].append((d["ref"] | d["zqc"]) & (ph.cs_n != 0))
@@ -170,7 +170,11 @@ class DFIMonitor(Module):
         seen = {k: Signal(name_override="seen_" + k) for k in ["act", "pre", "prea", "rd", "wr", "ref", "zqc", "ap"]}
         seen_now = {k: [] for k in seen}
 
+        self.open_at = []
+        self.row_at = []
         for p, d in enumerate(dec):
+            self.open_at.append([list(x) for x in cur_open])
+            self.row_at.append([list(x) for x in cur_row])
             for r in range(nranks):
                 s = d["sel"][r]
                 prea = d["pre"] & d["a10"] & s
@@ -268,3 +272,163 @@ class DFIMonitor(Module):
         self.seen = seen
         self.end_open = cur_open
         self.end_row = cur_row
+
+
+def addr_oracle(addr, colbits, bankbits, align, bank_byte_alignment=0, data_width=8):
+    """independent bit-field reference of the ROW_BANK_COL mapping (see checks/c06.py): returns Migen
+    expressions (bank, row, column-bus-address-without-A10-flag)"""
+    cs = colbits - align
+    shift = cs
+    if bank_byte_alignment:
+        w = bank_byte_alignment // (data_width // 8)
+        shift = max(cs, w.bit_length() - 1 if w > 0 else 0)
+    bank = addr[shift:shift + bankbits]
+    colidx = addr[:cs]
+    row = Cat(addr[cs:shift], addr[shift + bankbits:]) if shift > cs else addr[shift + bankbits:]
+    if colbits > 10:
+        colbus = Cat(Replicate(0, align), colidx[:10 - align], Constant(0, 1), colidx[10 - align:])
+    else:
+        colbus = Cat(Replicate(0, align), colidx) if align else colidx
+    return bank, row, colbus
+
+
+class OrdinalMonitor(Module):
+    """End-to-end command/data matching for one symbolic marked command (port PSEL, ordinal NSEL).
+
+    The NSEL-th command accepted on port PSEL (address A*, direction W*) is the K*-th command accepted for
+    its bank (counting all ports).  Requirements:
+      * the K*-th CAS issued on the DFI for that bank has direction W*, column = column(A*), and the row open
+        in that bank (reconstructed from DFI ACTs) is row(A*);
+      * no bank ever sees more CAS commands than accepted requests;
+      * the J*-th write-data strobe (read-data beat) of port PSEL -- J* = number of earlier accepted
+        writes (reads) on that port -- occurs exactly write_latency (read_latency) cycles after that CAS is
+        on the DFI; no port ever gets more strobes than it has accepted commands of that direction;
+      * in a write strobe cycle the DFI write data/mask of all phases carry that port's wdata / ~we; in a read
+        beat cycle the port sees the concatenated DFI read data.
+    """
+    def __init__(self, ports, dfi, mon, colbits, bankbits, align, write_latency, read_latency, cw=6,
+                 bank_byte_alignment=0):
+        np_ = len(ports)
+        nb = 2**bankbits
+        dw = len(ports[0].wdata.data)
+        self.psel = Signal(max=max(np_, 2), name_override="PSEL")
+        self.nsel = Signal(cw, name_override="NSEL")
+        bads = self.bads = {}
+        covers = self.covers = {}
+
+        def bad(name):
+            s = Signal(name_override="bad_" + name)
+            bads[name] = s
+            return s
+
+        def sat_inc(x):
+            return Mux(x == 2**cw - 1, x, x + 1)
+        cnt = [Signal(cw) for _ in ports]
+        cntw = [Signal(cw) for _ in ports]
+        cntr = [Signal(cw) for _ in ports]
+        strw = [Signal(cw) for _ in ports]
+        strr = [Signal(cw) for _ in ports]
+        acc = [Signal(cw) for _ in range(nb)]
+        casn = [Signal(cw) for _ in range(nb)]
+        marked = Signal()
+        mA = Signal(len(ports[0].cmd.addr))
+        mW = Signal()
+        mK = Signal(cw)
+        mJ = Signal(cw)
+        mB = Signal(max=max(nb, 2))
+        mRow = Signal(len(mon.row[0][0]))
+        mCol = Signal(len(dfi.phases[0].address))
+        overflow = Signal()   # any counter saturated: claims are only made for ordinals below saturation
+        self.marked = marked
+
+        accept = [p.cmd.valid & p.cmd.ready for p in ports]
+        orc = [addr_oracle(p.cmd.addr, colbits, bankbits, align, bank_byte_alignment, dw) for p in ports]
+        # per-bank acceptance this cycle
+        acc_now = []
+        for b in range(nb):
+            hits = [accept[i] & (orc[i][0] == b) for i in range(np_)]
+            n = Signal(max=np_ + 1)
+            self.comb += n.eq(reduce(lambda x, y: x + y, hits))
+            acc_now.append(n)
+            self.sync += acc[b].eq(Mux(acc[b] + n >= 2**cw - 1, 2**cw - 1, acc[b] + n))
+        v_two = bad("two_ports_accepted_for_one_bank_in_one_cycle")
+        self.comb += v_two.eq(any_([n > 1 for n in acc_now]))
+        mark_now = Signal()
+        for i, p in enumerate(ports):
+            self.sync += [If(accept[i], cnt[i].eq(sat_inc(cnt[i])),
+                             If(p.cmd.we, cntw[i].eq(sat_inc(cntw[i]))).Else(cntr[i].eq(sat_inc(cntr[i]))))]
+            hit = Signal()
+            self.comb += hit.eq(accept[i] & (self.psel == i) & (cnt[i] == self.nsel) & ~marked)
+            self.sync += If(hit,
+                            marked.eq(1), mA.eq(p.cmd.addr), mW.eq(p.cmd.we), mB.eq(orc[i][0]),
+                            mK.eq(Array(acc)[orc[i][0]]), mJ.eq(Mux(p.cmd.we, cntw[i], cntr[i])),
+                            mRow.eq(orc[i][1]), mCol.eq(orc[i][2]))
+            self.comb += If(hit, mark_now.eq(1))
+        # DFI side
+        v_cas_mismatch = bad("marked_cas_wrong_direction_column_or_row")
+        v_cas_wo_req = bad("cas_without_accepted_request")
+        mism, woreq = [], []
+        marked_cas_now = Signal()
+        cas_inc = [[] for _ in range(nb)]
+        for pi, d in enumerate(mon.dec):
+            for b in range(nb):
+                c = Signal()
+                self.comb += c.eq((d["rd"] | d["wr"]) & (d["bank"] == b))
+                cas_inc[b].append(c)
+                # at most one CAS per cycle is issued by the multiplexer; counts before this cycle are used
+                woreq.append(c & (casn[b] >= acc[b]))
+                ism = Signal()
+                self.comb += ism.eq(c & marked & (mB == b) & (casn[b] == mK))
+                colmask = (2**len(d["ph"].address) - 1) & ~(1 << 10)
+                mism.append(ism & ((d["wr"] != mW) | ((d["ph"].address & colmask) != (mCol & colmask)) |
+                                   (mon.row_at[pi][0][b] != mRow) | ~mon.open_at[pi][0][b]))
+                self.comb += If(ism, marked_cas_now.eq(1))
+        for b in range(nb):
+            n = reduce(lambda x, y: x + y, cas_inc[b])
+            self.sync += casn[b].eq(Mux(casn[b] + n >= 2**cw - 1, 2**cw - 1, casn[b] + n))
+        self.comb += [v_cas_mismatch.eq(any_(mism)), v_cas_wo_req.eq(any_(woreq))]
+        # expected strobe time
+        maxlat = max(write_latency, read_latency, 1)
+        pend = Signal()
+        wait = Signal(max=maxlat + 1)
+        exp_now = Signal()
+        lat = Mux(mW, write_latency, read_latency)
+        self.comb += exp_now.eq((marked_cas_now & (lat == 0)) | (pend & (wait == 0)))
+        self.sync += [
+            If(marked_cas_now & (lat != 0), pend.eq(1), wait.eq(lat - 1)
+            ).Elif(pend & (wait != 0), wait.eq(wait - 1)
+            ).Elif(pend, pend.eq(0))]
+        v_str_mis = bad("marked_data_strobe_not_aligned_with_its_dfi_data_phase")
+        v_str_wo = bad("data_strobe_without_command")
+        v_route_w = bad("write_data_or_mask_on_dfi_differs_from_strobed_port")
+        v_route_r = bad("read_data_at_port_differs_from_dfi")
+        v_multi = bad("two_ports_strobed_in_one_cycle")
+        wo, rw, rr = [], [], []
+        marked_strobe = Signal()
+        all_wr = Cat(*[ph.wrdata for ph in dfi.phases])
+        all_mask = Cat(*[ph.wrdata_mask for ph in dfi.phases])
+        all_rd = Cat(*[ph.rddata for ph in dfi.phases])
+        for i, p in enumerate(ports):
+            ws, rs = p.wdata.ready, p.rdata.valid
+            self.sync += [If(ws, strw[i].eq(sat_inc(strw[i]))), If(rs, strr[i].eq(sat_inc(strr[i])))]
+            wo += [ws & (strw[i] >= cntw[i]), rs & (strr[i] >= cntr[i])]
+            rw.append(ws & ((all_wr != p.wdata.data) | (all_mask != (~p.wdata.we & (2**len(p.wdata.we) - 1)))))
+            rr.append(rs & (p.rdata.data != all_rd))
+            self.comb += If(marked & (self.psel == i) & ((ws & mW & (strw[i] == mJ)) | (rs & ~mW & (strr[i] == mJ))),
+                            marked_strobe.eq(1))
+        nstr = reduce(lambda x, y: x + y, [p.wdata.ready for p in ports])
+        nstr_r = reduce(lambda x, y: x + y, [p.rdata.valid for p in ports])
+        self.comb += [
+            v_str_mis.eq(marked_strobe != exp_now), v_str_wo.eq(any_(wo)),
+            v_route_w.eq(any_(rw)), v_route_r.eq(any_(rr)),
+            v_multi.eq((nstr > 1) | (nstr_r > 1)),
+        ]
+        sat = [x == 2**cw - 1 for x in cnt + acc + casn]
+        self.comb += overflow.eq(any_(sat))
+        self.no_overflow = Signal()
+        self.comb += self.no_overflow.eq(~overflow)
+        # witnesses
+        self.cov_marked_write_done = Signal()
+        self.cov_marked_read_done = Signal()
+        self.comb += [self.cov_marked_write_done.eq(marked_strobe & mW & (self.nsel >= 2)),
+                      self.cov_marked_read_done.eq(marked_strobe & ~mW & (self.nsel >= 2))]
